@@ -24,6 +24,15 @@ search: per array, the shortest model history violating the property is found by
        Coq and replayed on the implementation (-> known findings / new violations).  A disagreement between
        implementation and model is minimised (ddmin, Coq as the model oracle) and extended by probing edits until
        an observation differs from the shipped data although the model says it must not.
+       Model-independent searches run on every run and judge the implementation against the shipped data only
+       (every object a call returns must equal what the same call returns in a fresh process): the random histories,
+       a directed sweep over all ordered pairs of methods at their common degrees (with in-place edits of every
+       returned array, cache flag on/off, AtomGrid / shell grids), the Coulomb loader (edit the returned arrays, load
+       again by atomic number / symbol / lower-case symbol) and the transform call orders.  Whenever a part of the tie
+       is broken (a unit outside the extractor's subset -- that part of the model then is the specification itself --,
+       an instance theorem about cfg_src / tcfg_src that no longer compiles, a trace disagreement without a probing
+       result), Ctx.broken_tie reports the first such failing history that is not a listed known finding as the
+       replay; only if there is none the violation is reported as no-failing-input-found.
 """
 from __future__ import annotations
 
@@ -46,6 +55,11 @@ KNAME = {"KP": "points", "KW": "weights"}
 # ====================================================================== gen: abstract interpreter
 class Unsupported(ValueError):
     pass
+
+
+class NeedsPrivate(Unsupported):
+    """Library code writes into (or passes on) an AngularGrid's arrays: harmless exactly when every AngularGrid owns
+    private copies of its arrays (cfg_src isolating for every method and array)."""
 
 
 class Arr:
@@ -78,6 +92,13 @@ class CacheDict:
         self.name = name
 
 
+class MethodTable:
+    """A module-level dict literal {method name: cache dictionary}."""
+
+    def __init__(self, mapping):
+        self.mapping = mapping
+
+
 UNK = object()
 FRESH_CALLS_NP = {"copy", "array"}  # np.copy(x), np.array(x): new array
 REF_CALLS_NP = {"asarray", "ascontiguousarray", "asanyarray"}  # of an ndarray: the same array
@@ -90,9 +111,10 @@ def _is_np(node, attr=None):
 class InitInterp:
     """Runs AngularGrid.__init__ abstractly for one (method, hit, cache flag) scenario."""
 
-    def __init__(self, fn: ast.FunctionDef, method: str, hit: bool, cacheflag: bool, cache_globals: set):
+    def __init__(self, fn: ast.FunctionDef, method: str, hit: bool, cacheflag: bool, cache_globals: set, tables=None):
         self.fn, self.method, self.hit, self.cacheflag = fn, method, hit, cacheflag
         self.cache_globals = cache_globals
+        self.tables = tables or {}
         self.nid = 0
         self.load = None  # (Arr, Arr) created by the loader
         self.centry = None  # (Arr, Arr) standing for the arrays held by the cache (hit)
@@ -116,6 +138,8 @@ class InitInterp:
         if isinstance(e, ast.Name):
             if e.id in self.cache_globals:
                 return CacheDict(e.id)
+            if e.id in self.tables and e.id not in self.env:
+                return MethodTable(self.tables[e.id])
             return self.env.get(e.id, UNK)
         if isinstance(e, ast.Tuple):
             return Tup([self.ev(x) for x in e.elts])
@@ -132,6 +156,13 @@ class InitInterp:
             return UNK
         if isinstance(e, ast.Subscript):
             v = self.ev(e.value)
+            if isinstance(v, MethodTable):
+                key = self.ev(e.slice)
+                if not isinstance(key, Str):
+                    raise Unsupported(f"method table indexed by a non-constant (line {e.lineno})")
+                if key.s not in v.mapping:
+                    raise _Raised()
+                return CacheDict(v.mapping[key.s])
             if isinstance(v, CacheDict):
                 if not (isinstance(e.slice, ast.Name) and e.slice.id == "degree"):
                     raise Unsupported(f"cache indexed by something else than `degree` (line {e.lineno})")
@@ -278,6 +309,9 @@ class InitInterp:
                     raise Unsupported(f"cache membership of something else than `degree` (line {e.lineno})")
                 self.use_cache(r, e)
                 return self.hit if isinstance(op, ast.In) else (not self.hit)
+            if isinstance(l, Str) and isinstance(op, (ast.In, ast.NotIn)) and isinstance(r, MethodTable):
+                t = l.s in r.mapping
+                return t if isinstance(op, ast.In) else (not t)
             if isinstance(l, Str):
                 if isinstance(op, (ast.Eq, ast.NotEq)) and isinstance(r, Str):
                     return (l.s == r.s) if isinstance(op, ast.Eq) else (l.s != r.s)
@@ -441,6 +475,13 @@ def extract_angular(ctx: Ctx):
             if not (isinstance(val, ast.Dict) and not val.keys) and not (isinstance(val, ast.Call) and isinstance(val.func, ast.Name) and val.func.id == "dict" and not val.args and not val.keywords):
                 raise Unsupported(f"module-level cache {tgt} is not initialised with an empty dict")
             cache_globals.add(tgt)
+    tables, table_lines = {}, set()
+    for n in tree.body:
+        if isinstance(n, ast.Assign) and len(n.targets) == 1 and isinstance(n.targets[0], ast.Name) and isinstance(n.value, ast.Dict) and n.value.keys \
+                and all(isinstance(k, ast.Constant) and isinstance(k.value, str) for k in n.value.keys) \
+                and all(isinstance(v, ast.Name) and v.id in cache_globals for v in n.value.values):
+            tables[n.targets[0].id] = {k.value: v.id for k, v in zip(n.value.keys, n.value.values)}
+            table_lines.update(range(n.lineno, n.end_lineno + 1))
     cls = [n for n in tree.body if isinstance(n, ast.ClassDef) and n.name == "AngularGrid"]
     if len(cls) != 1:
         raise Unsupported("class AngularGrid not found")
@@ -460,8 +501,11 @@ def extract_angular(ctx: Ctx):
         if isinstance(node, ast.Name) and node.id in cache_globals:
             inside = init.lineno <= node.lineno <= init.end_lineno
             toplevel = any(isinstance(n, (ast.Assign, ast.AnnAssign)) and n.lineno == node.lineno for n in tree.body)
-            if not inside and not toplevel:
+            if not inside and not toplevel and node.lineno not in table_lines:
                 raise Unsupported(f"cache {node.id} used outside AngularGrid.__init__ (line {node.lineno})")
+        if isinstance(node, ast.Name) and node.id in tables:
+            if not (init.lineno <= node.lineno <= init.end_lineno) and node.lineno not in table_lines:
+                raise Unsupported(f"method table {node.id} used outside AngularGrid.__init__ (line {node.lineno})")
     units = [{"unit": "AngularGrid.__init__", "file": "src/grid/angular.py", "lines": [init.lineno, init.end_lineno],
               "sha": src_sha(ast.get_source_segment(src, init))}]
     for n in cls[0].body:
@@ -479,7 +523,7 @@ def extract_angular(ctx: Ctx):
         res = {}
         for hit in (False, True):
             for flag in (True, False):
-                it = InitInterp(init, m, hit, flag, cache_globals).run()
+                it = InitInterp(init, m, hit, flag, cache_globals, tables).run()
                 res[(hit, flag)] = it
         caches[m] = {it.cache_used for it in res.values()}
         if len(caches[m]) != 1 or None in caches[m]:
@@ -671,15 +715,15 @@ def check_atomgrid(ctx: Ctx):
                                 out[tt.attr] = "alias" if kd == "alias" else "fresh"
                             elif isinstance(tt, ast.Subscript):
                                 if cls_expr(tt.value) == "alias":
-                                    raise Unsupported(f"{fn.name}: element assignment into an angular-grid array (line {st.lineno})")
+                                    raise NeedsPrivate(f"{fn.name}: element assignment into an angular-grid array (line {st.lineno})")
                                 if kd == "alias":
-                                    raise Unsupported(f"{fn.name}: angular-grid array stored in a container (line {st.lineno})")
+                                    raise NeedsPrivate(f"{fn.name}: angular-grid array stored in a container (line {st.lineno})")
                             elif kd == "alias":
                                 raise Unsupported(f"{fn.name}: angular-grid array stored in {ast.unparse(tt)} (line {st.lineno})")
                 elif isinstance(st, ast.AugAssign):
                     if (isinstance(st.target, ast.Name) and st.target.id in alias) or is_src(st.target) or \
                             (isinstance(st.target, ast.Subscript) and mentions(st.target.value)):
-                        raise Unsupported(f"{fn.name}: in-place update of an angular-grid array (line {st.lineno})")
+                        raise NeedsPrivate(f"{fn.name}: in-place update of an angular-grid array (line {st.lineno})")
                     if mentions(st.value):
                         cls_expr(st.value)
                 elif isinstance(st, ast.If):
@@ -698,12 +742,12 @@ def check_atomgrid(ctx: Ctx):
                     v = st.value
                     if isinstance(v, ast.Call) and isinstance(v.func, ast.Attribute) and v.func.attr == "append" and len(v.args) == 1:
                         if cls_expr(v.args[0]) == "alias":
-                            raise Unsupported(f"{fn.name}: angular-grid array appended without a copy (line {st.lineno})")
+                            raise NeedsPrivate(f"{fn.name}: angular-grid array appended without a copy (line {st.lineno})")
                     elif mentions(v):
                         raise Unsupported(f"{fn.name}: angular-grid array passed to {ast.unparse(v)[:40]} (line {st.lineno})")
                 elif isinstance(st, ast.Return):
                     if st.value is not None and mentions(st.value) and cls_expr(st.value) == "alias":
-                        raise Unsupported(f"{fn.name}: returns an angular-grid array by reference (line {st.lineno})")
+                        raise NeedsPrivate(f"{fn.name}: returns an angular-grid array by reference (line {st.lineno})")
                 elif isinstance(st, (ast.Raise, ast.Pass)):
                     pass
                 elif isinstance(st, (ast.With, ast.Try)):
@@ -728,7 +772,7 @@ def check_atomgrid(ctx: Ctx):
         out = analyse(fn, binders[0].targets[0].id, None)
         if name == "get_shell_grid":
             if out.get("points") != "fresh" or out.get("weights") != "fresh":
-                raise Unsupported(f"get_shell_grid returns the angular grid with its cache-backed arrays: {out}")
+                raise NeedsPrivate(f"get_shell_grid returns the angular grid with its own arrays: {out}")
             rets = [n for n in ast.walk(fn) if isinstance(n, ast.Return)]
             if not all(isinstance(r.value, ast.Name) and r.value.id == binders[0].targets[0].id for r in rets):
                 raise Unsupported("get_shell_grid does not return the angular grid object")
@@ -1099,8 +1143,10 @@ class Run:
                 self.objs.append({"kind": "ang", "m": m, "d": d, "obj": g, "get": (lambda g=g: g.points, lambda g=g: g.weights)})
                 return [f"Construct {COQ_M[m]} {d} {'true' if flag else 'false'}"], ()
             if kind == "params":
-                _, z = op
-                c, a = I.C.load_atomic_gaussian_params(z if op[-1] != "sym" else ELEMENTS[z])
+                z = op[1]
+                form = op[2] if len(op) > 2 else "num"
+                arg = {"num": z, "sym": ELEMENTS[z], "lower": ELEMENTS[z].lower(), "npint": np.int64(z)}[form]
+                c, a = I.C.load_atomic_gaussian_params(arg)
                 if z not in self.params_seen:
                     self.params_seen.append(z)
                 self.objs.append({"kind": "params", "m": "coulomb", "d": z, "obj": (c, a), "get": (lambda c=c: c, lambda a=a: a)})
@@ -1187,8 +1233,16 @@ class Run:
     def run(self, ops):
         """-> list of (model ops, snapshot) Coq terms, or raises."""
         trace = []
-        for op in ops:
+        self.direct_fail = None
+        for i, op in enumerate(ops):
+            n0 = len(self.objs)
             mops, ints = self.do(op)
+            if self.direct_fail is None and len(self.objs) > n0 and self.objs[-1]["kind"] != "mol":
+                try:
+                    if not last_object_clean(self)[0]:
+                        self.direct_fail = i
+                except Exception:  # noqa: BLE001
+                    pass
             trace.append("([" + "; ".join(mops) + "], " + self.snapshot(ints) + ")")
         return trace
 
@@ -1272,7 +1326,7 @@ def gen_history(rng, maxlen=12):
             if atoms:
                 ops.append(["angcoords", rng.choice(atoms)])
         else:
-            ops.append(["params", rng.choice(list(ELEMENTS))])
+            ops.append(["params", rng.choice(list(ELEMENTS)), rng.choice(["num", "num", "sym", "lower"])])
             kinds.append("params")
     return fix_indices(ops)
 
@@ -1322,7 +1376,9 @@ def py_of_history(ops):
             lines.append(f"o{n}=AngularGrid({arg},method='{op[1]}'" + ("" if op[3] else ",cache=False") + ")")
             n += 1
         elif k == "params":
-            lines.append(f"o{n}=load_atomic_gaussian_params({op[1]})")
+            form = op[2] if len(op) > 2 else "num"
+            arg = {"num": str(op[1]), "sym": repr(ELEMENTS[op[1]]), "lower": repr(ELEMENTS[op[1]].lower()), "npint": f"np.int64({op[1]})"}[form]
+            lines.append(f"o{n}=load_atomic_gaussian_params({arg})")
             n += 1
         elif k == "mut":
             lines.append(f"o{op[2]}.{KNAME['K' + op[1]]}[...]={fillval(op[3])}")
@@ -1583,6 +1639,116 @@ def transform_tie(ctx: Ctx, n, rep):
     return len(cases)
 
 
+# ====================================================================== direct judgement against the shipped data (no model)
+def last_object_clean(run_: "Run"):
+    """Is the object created last what the same call returns in a fresh process (= the shipped data)?  Only for objects
+    whose content is determined by the call alone: AngularGrid, parameter tuples, AtomGrid, shell grids."""
+    o = run_.objs[-1]
+    I = run_.impl
+    if o["kind"] in ("ang", "params"):
+        try:
+            ref = I.inst(o["m"], o["d"])
+        except Exception:  # noqa: BLE001
+            return True, None
+        for ki in (0, 1):
+            a = np.asarray(o["get"][ki](), dtype=float)
+            if a.shape != ref[ki].shape or a.tobytes() != ref[ki].tobytes():
+                return False, (KINDS[ki], a)
+        return True, None
+    if o["kind"] in ("atom", "shell"):
+        for ki in (0, 1):
+            a = np.asarray(o["get"][ki]())
+            if a.shape != o["ref"][ki].shape or a.tobytes() != o["ref"][ki].tobytes():
+                return False, (KINDS[ki], a)
+    return True, None
+
+
+def direct_first_failure(impl, spec_n, ops):
+    """Run the history; the first call that returns an object differing from the shipped data -> (index, kind, array)."""
+    r = Run(impl, spec_n)
+    try:
+        for i, op in enumerate(ops):
+            n0 = len(r.objs)
+            r.do(op)
+            if len(r.objs) > n0 and r.objs[-1]["kind"] != "mol":
+                ok, why = last_object_clean(r)
+                if not ok:
+                    return i, why[0], why[1]
+        return None
+    except Exception as e:  # noqa: BLE001
+        return None
+    finally:
+        impl.reset()
+
+
+def direct_candidate(impl, spec_n, ops, area):
+    """-> candidate tuple (key, observed, text, replay) for the shortest sub-history whose last call returns wrong data."""
+    hit = direct_first_failure(impl, spec_n, ops)
+    if hit is None:
+        return None
+    cur = [list(o) for o in ops[:hit[0] + 1]]
+    changed = True
+    while changed and len(cur) > 1:
+        changed = False
+        for i in range(len(cur) - 1):
+            cand = remove_op(cur, i)
+            h2 = direct_first_failure(impl, spec_n, cand)
+            if h2 is not None and h2[0] == len(cand) - 1:
+                cur, changed = cand, True
+                break
+    hit = direct_first_failure(impl, spec_n, cur)
+    if hit is None or hit[0] != len(cur) - 1:
+        return None
+    k, arr = hit[1], hit[2]
+    n = sum(1 for c in created_objects(cur) if c is not None) - 1
+    key = py_of_history(cur) + f"; o{n}.{KNAME[k] if cur[-1][0] != 'params' else ('[0]' if k == 'KP' else '[1]')}"
+    text = (f"`{py_of_history(cur)}`: the object returned by the last call differs from what the same call returns in a fresh process "
+            f"(the shipped data): its {KNAME[k] if cur[-1][0] != 'params' else ('coeffs_s' if k == 'KP' else 'alphas_s')} array has "
+            f"{np.asarray(arr).shape[0]} rows, sum {fingerprint(arr)[0]:.6g}")
+    return (key, fingerprint(arr), text, {"history": cur, "kind": "history", "check": "last_object", "python": key, "area": area,
+                                          "expected": "bit for bit what the same call returns in a fresh process (the shipped data)"})
+
+
+def common_degrees(impl, m1, m2, limit=2, maxsize=300):
+    out = []
+    for d in range(1, 60):
+        try:
+            r1, r2 = impl.resolve(m1, d), impl.resolve(m2, d)
+        except Exception:  # noqa: BLE001
+            continue
+        if r1[0] == d and r2[0] == d and r1[1] <= maxsize and r2[1] <= maxsize:
+            out.append(d)
+            if len(out) >= limit:
+                break
+    return out
+
+
+def directed_histories(impl):
+    """All ordered pairs of methods at common degrees, with and without in-place edits of every returned array and with the
+    cache flag of either call off; the Coulomb loader by number / symbol / lower-case symbol after edits."""
+    hs = []
+    for m1 in METHODS:
+        for m2 in METHODS:
+            for d in common_degrees(impl, m1, m2):
+                hs.append((("angular"), [["ang", m1, d, True], ["ang", m2, d, True]]))
+                hs.append((("angular"), [["ang", m1, d, True], ["mut", "P", 0, 0], ["mut", "W", 0, 1], ["ang", m2, d, True]]))
+                hs.append((("angular"), [["ang", m1, d, True], ["ang", m2, d, False]]))
+                if m1 == m2:
+                    hs.append((("angular"), [["ang", m1, d, True], ["ang", m1, d, True], ["mut", "P", 1, 0], ["mut", "W", 1, 1], ["ang", m1, d, True]]))
+                    hs.append((("angular"), [["ang", m1, d, False], ["mut", "P", 0, 0], ["mut", "W", 0, 1], ["ang", m1, d, True]]))
+                    hs.append((("angular"), [["ang", m1, d, True], ["mut", "P", 0, 0], ["mut", "W", 0, 1], ["atom", m1, [d, d], 0, False]]))
+                    hs.append((("angular"), [["atom", m1, [d], 0, False], ["shell", 0, 0, True], ["mut", "P", 1, 0], ["mut", "W", 1, 1], ["mut", "W", 0, 2],
+                                             ["shell", 0, 0, True], ["ang", m1, d, True]]))
+                else:
+                    hs.append((("angular"), [["atom", m1, [d], 0, False], ["atom", m2, [d], 0, False]]))
+    for z in ELEMENTS:
+        for f1 in ("num", "sym"):
+            for f2 in ("num", "sym", "lower"):
+                hs.append(("coulomb", [["params", z, f1], ["mut", "P", 0, 0], ["mut", "W", 0, 1], ["params", z, f2]]))
+        hs.append(("coulomb", [["params", z, "num"], ["params", z, "sym"], ["mut", "P", 1, 0], ["mut", "W", 1, 1], ["params", z, "lower"]]))
+    return hs
+
+
 # ====================================================================== disagreement -> concrete failing input
 def eval_traces(ctx: Ctx, impl, spec_n, name, histories):
     """Run the histories on the implementation and the model; -> list of bool (True = traces agree)."""
@@ -1747,14 +1913,23 @@ class Reports:
         self.items.append((obligation, not found, size, len(key), key, observed, text, replay, found))
 
     def flush(self, ctx: Ctx):
-        per = {}
+        """Concrete failures are reported (capped); ties that broke without a concrete input are handed back
+        (obligation -> first text) for Ctx.broken_tie."""
+        per, unfound = {}, {}
         for ob, nf, size, _, key, observed, text, replay, found in sorted(self.items, key=lambda t: t[:5]):
+            if not found:
+                unfound.setdefault(ob, text)
+                continue
             per[ob] = per.get(ob, 0) + 1
             if per[ob] <= MAXREP:
-                ctx.fail(ob, key, observed, text, replay, found_input=found)
+                ctx.fail(ob, key, observed, text, replay, found_input=True)
         if any(v > MAXREP for v in per.values()):
             ctx.notes.append(f"failures found per obligation (at most {MAXREP} reported each): " + json.dumps(per))
-        return per
+        return unfound
+
+    def concrete(self, obligations):
+        return [(key, observed, text, replay) for ob, nf, size, _, key, observed, text, replay, found in sorted(self.items, key=lambda t: t[:5])
+                if found and ob in obligations]
 
 
 # ====================================================================== run
@@ -1774,8 +1949,11 @@ def run(ctx: Ctx):
     units = []
     cfg = {}
     names = {"lebedev": "LEBEDEV_CACHE", "spherical": "SPHERICAL_CACHE", "maxdet": "MAX_DET_CACHE", "ahrens_beylkin": "AHRENS_BEYLKIN_CACHE"}
-    pinned_row = lambda m, k: ({"store": "XRef", "missc": "(IOf (XFresh 1))", "missn": "(XFresh 1)", "hit": "(XFresh 1)"} if (m in ("lebedev", "spherical") and k == "KW")
-                               else {"store": "XRef", "missc": "(IOf XRef)", "missn": "XRef", "hit": "XRef"})
+    # when a unit is outside the extractor's subset, that part of the model is the specification itself (every array
+    # copied at the cache boundary): the model-based comparisons then judge the implementation against the spec
+    def pinned_row(m, k):
+        n = 1 if (m in ("lebedev", "spherical") and k == "KW") else 0
+        return {"store": "XRef", "missc": f"(IOf (XFresh {n}))", "missn": f"(XFresh {n})", "hit": f"(XFresh {n})"}
     try:
         cfg_a, u, names = extract_angular(ctx)
         cfg.update(cfg_a)
@@ -1791,9 +1969,17 @@ def run(ctx: Ctx):
         gen_problems.append(("gen_coulomb", f"load_atomic_gaussian_params is outside the supported subset: {e}"))
         cfg.update({("coulomb", k): {"store": "XRef", "missc": "(IOf (XFresh 0))", "missn": "(XFresh 0)", "hit": "(XFresh 0)"} for k in KINDS})
     libcache = True
+    def row_iso(r):
+        return r["hit"] != "XRef" and r["missc"] != "IAliasCache" and not (r["missc"] == "(IOf XRef)" and r["store"] == "XRef")
+
     try:
         libcache, u = check_atomgrid(ctx)
         units += u
+    except NeedsPrivate as e:
+        if not any(ob == "gen_angular" for ob, _ in gen_problems) and all(row_iso(cfg[(m, k)]) for m in METHODS for k in KINDS):
+            ctx.notes.append(f"atomgrid.py: {e} -- accepted: every AngularGrid owns private copies of its arrays (cfg_src isolating everywhere)")
+        else:
+            gen_problems.append(("gen_atomgrid", f"atomgrid.py: {e}"))
     except Unsupported as e:
         gen_problems.append(("gen_atomgrid", f"atomgrid.py: {e}"))
     try:
@@ -1806,7 +1992,7 @@ def run(ctx: Ctx):
     ctx.gen("C19_gen.v", coq_gen_text(cfg, libcache, sets, guard), units)
     for ob, text in gen_problems:
         # reported after the dynamic search below had a chance to find a concrete failing input
-        ctx.notes.append(f"{ob}: {text}; the pinned configuration is used for this part of the model")
+        ctx.notes.append(f"{ob}: {text}; the specification itself (copy at the cache boundary) is used for this part of the model")
 
     # ---------------------------------------------------------------- prove
     ctx.copy_coq("C19")
@@ -1819,8 +2005,22 @@ def run(ctx: Ctx):
 
     impl = Impl(names)
     spec_n = {(m, k): (1 if (m in ("lebedev", "spherical") and k == "KW") else 0) for m in METHODS + ["coulomb"] for k in KINDS}
-    found_concrete = {"angular": False, "transform": False}
     rep = Reports()
+    broken = []  # (what, error text, area): parts of the tie that no longer check
+    cands = {"angular": [], "coulomb": [], "transform": []}  # property failures found on the implementation, model-independent
+
+    def add_cand(area, c):
+        if c is not None and all(c[0] != x[0] for x in cands[area]):
+            cands[area].append(c)
+
+    for ob, text in gen_problems:
+        broken.append((ob, text, {"gen_transforms": "transform", "gen_coulomb": "coulomb"}.get(ob, "angular")))
+    for name, ob in ctx.obligations.items():
+        if ob["status"] != "discharged":
+            area = "transform" if "srcB" in ob["file"] else ("coulomb" if "srcA3" in ob["file"] else "angular")
+            log = ctx.logs.get(ob["file"], "")
+            err = next((l.strip() for l in log.splitlines() if l.strip().startswith("Error")), "") or log.strip()[-160:]
+            broken.append((name, f"theorem {name} ({ob['file']}) no longer checks: {err[:200]}", area))
 
     # ---------------------------------------------------------------- the shipped data is what a fresh process returns
     for m in METHODS:
@@ -1856,16 +2056,16 @@ def run(ctx: Ctx):
               "expected": "the shipped data (bit for bit what the same call returns in a fresh process)"}
         edited = any(op[0] == "mut" for op in h)
         if same:
-            ctx.fail("corr_witness", "model-only:" + key, None,
-                     f"the model extracted from the source predicts that `{key}` differs from the shipped data; the implementation returns the shipped data",
-                     rp, found_input=False)
+            broken.append(("corr_witness", f"the model extracted from the source predicts that `{key}` differs from the shipped data; the implementation "
+                           f"returns the shipped data", "coulomb" if m == "coulomb" else "angular"))
         else:
-            found_concrete["angular"] = True
             why = ((f"AngularGrid hands out the cached {KNAME[k]} array of method '{m}' by reference, so an in-place edit of a returned grid changes every later "
                     f"grid (and every AtomGrid/MolGrid built from it)" if m != "coulomb" else "the loader hands out the cached array by reference") if edited
                    else "what a later call returns depends on the calls made before (cache hit and cache miss deliver different values)")
+            text = f"{key} no longer holds the shipped data (sum {fingerprint(arr)[0]:.6g}): {why}"
             # one record per aliased array: not capped (each is a distinct finding keyed on its own shortest history)
-            ctx.fail("observation_refines_spec", key, fingerprint(arr), f"{key} no longer holds the shipped data (sum {fingerprint(arr)[0]:.6g}): {why}", rp)
+            ctx.fail("observation_refines_spec", key, fingerprint(arr), text, rp)
+            add_cand("coulomb" if m == "coulomb" else "angular", (key, fingerprint(arr), text, rp))
     # arrays for which the model has no short counterexample must be protected on the implementation as well: directed check
     for m in METHODS + ["coulomb"]:
         for k in KINDS:
@@ -1878,18 +2078,30 @@ def run(ctx: Ctx):
                 ctx.case(("directed", m, k, len(h)))
                 if not same:
                     key = py_of_history(h) + "; " + obs_text(m, d, k)
-                    found_concrete["angular"] = True
-                    rep.add("src_safe_arrays_refine_spec", len(h), key, fingerprint(arr), f"{key} no longer holds the shipped data although the model extracted from the source says it must",
-                            {"history": h, "observe": [m, d, k], "kind": "history", "python": key})
+                    text = f"{key} no longer holds the shipped data although the model extracted from the source says it must"
+                    rpd = {"history": h, "observe": [m, d, k], "kind": "history", "python": key}
+                    rep.add("src_safe_arrays_refine_spec", len(h), key, fingerprint(arr), text, rpd)
+                    add_cand("coulomb" if m == "coulomb" else "angular", (key, fingerprint(arr), text, rpd))
+
+    # ---------------------------------------------------------------- directed sweep judged against the shipped data only (no model)
+    dh = directed_histories(impl)
+    for area, h in dh:
+        ctx.case(("sweep", area, tuple(op[0] + str(op[1]) for op in h)))
+        if direct_first_failure(impl, spec_n, h) is not None:
+            add_cand(area, direct_candidate(impl, spec_n, h, area))
+    ctx.cov["directed_sweep_histories"] = len(dh)
 
     # ---------------------------------------------------------------- history correspondence
     nh = 200 if ctx.quick else 5000
     hs = [gen_history(ctx.rng, 12) for _ in range(nh)]
-    cases, crashed = [], {}
+    cases, crashed, direct_bad = [], {}, []
     for i, h in enumerate(hs):
         try:
-            tr = Run(impl, spec_n).run(h)
+            r_ = Run(impl, spec_n)
+            tr = r_.run(h)
             cases.append("check_trace cfg_src init " + trace_term(tr))
+            if r_.direct_fail is not None:
+                direct_bad.append(i)
         except Exception as e:  # noqa: BLE001
             crashed[i] = f"{type(e).__name__}: {e}"
             cases.append("false")
@@ -1899,39 +2111,53 @@ def run(ctx: Ctx):
         if i < 3:
             ctx.sample({"history": py_of_history(h)})
     impl.reset()
+    for i in sorted(direct_bad, key=lambda i: len(hs[i]))[:3]:
+        area = "coulomb" if hs[i][direct_first_failure(impl, spec_n, hs[i])[0]][0] == "params" else "angular"
+        add_cand(area, direct_candidate(impl, spec_n, hs[i], area))
+    ctx.cov["histories_with_a_call_returning_other_than_shipped_data"] = len(direct_bad)
     bad = bool_cases(ctx, "C19_hist", HEADER, cases, shard=400)
     ctx.cov["histories"] = nh
     ctx.cov["history_disagreements"] = len(bad)
-    reported = 0
     for i in sorted(bad, key=lambda i: len(hs[i]))[:2]:
         h = hs[i]
         hmin = minimise(ctx, impl, spec_n, h, f"h{i}")
         best = probe_violation(ctx, impl, spec_n, hmin, f"h{i}")
-        reported += 1
         if best is not None:
             e, m, d, k, arr = best
             key = py_of_history(hmin + e) + "; " + obs_text(m, d, k)
-            found_concrete["angular"] = True
-            rep.add("history_refines_spec", len(hmin + e), key, fingerprint(arr),
-                    f"{key} no longer holds the shipped data (sum {fingerprint(arr)[0]:.6g}); the model extracted from the source (and the theorems about it) say it must",
-                    {"history": hmin + e, "observe": [m, d, k], "kind": "history", "python": key, "original_history": h})
+            text = (f"{key} no longer holds the shipped data (sum {fingerprint(arr)[0]:.6g}); the model extracted from the source "
+                    f"(and the theorems about it) say it must")
+            rph = {"history": hmin + e, "observe": [m, d, k], "kind": "history", "python": key, "original_history": h}
+            rep.add("history_refines_spec", len(hmin + e), key, fingerprint(arr), text, rph)
+            add_cand("coulomb" if m == "coulomb" else "angular", (key, fingerprint(arr), text, rph))
         else:
-            key = "trace:" + py_of_history(hmin)
-            rep.add("corr_history", len(hmin), key, crashed.get(i),
-                    f"implementation and model disagree on the observable trace (array contents / memory sharing / cache keys) of `{py_of_history(hmin)}`"
-                    + (f" (implementation raised {crashed[i]})" if i in crashed else "") + "; no observation differing from the shipped data was found by probing",
-                    {"history": hmin, "kind": "trace", "original_history": h}, found=False)
+            broken.append(("corr_history", f"implementation and model disagree on the observable trace (array contents / memory sharing / cache keys) of "
+                           f"`{py_of_history(hmin)}`" + (f" (implementation raised {crashed[i]})" if i in crashed else ""), "angular"))
 
     # ---------------------------------------------------------------- transforms
     nt = transform_tie(ctx, 300 if ctx.quick else 4000, rep)
-    rep.flush(ctx)
-    found_concrete["transform"] = any(f.obligation == "b_fixed_is_order_independent" and f.found_input for f in ctx.failures)
+    for c in rep.concrete({"b_fixed_is_order_independent"}):
+        add_cand("transform", c)
+    for ob, text in rep.flush(ctx).items():
+        broken.append((ob, text, "transform" if ob == "corr_b_machine" else "angular"))
 
-    # ---------------------------------------------------------------- generator problems: violations unless a concrete input was found above
-    for ob, text in gen_problems:
-        area = "transform" if ob == "gen_transforms" else "angular"
-        ctx.fail(ob, "gen:" + ob, None, text + ("" if not found_concrete[area] else " (a concrete failing input is reported separately)"),
-                 {"kind": "gen"}, found_input=False)
+    # ---------------------------------------------------------------- the model says the property holds everywhere, the implementation does not
+    if not first and not broken:
+        n = 0
+        for area in ("angular", "coulomb"):
+            for key, observed, text, rpc in cands[area]:
+                if n < MAXREP and not any(f.key == key for f in ctx.failures):
+                    ctx.fail("direct_refines_spec", key, observed, text, rpc)
+                    n += 1
+
+    # ---------------------------------------------------------------- broken ties: the first failing history that is not a known finding is the replay
+    seen_what = set()
+    for what, err, area in broken:
+        if what in seen_what:
+            continue
+        seen_what.add(what)
+        order = cands[area] + [c for a2 in ("angular", "coulomb", "transform") if a2 != area for c in cands[a2]]
+        ctx.broken_tie(what, err, order)
 
     # restore pristine module state for whoever imports grid after us
     impl.reset()
@@ -1965,6 +2191,17 @@ def run(ctx: Ctx):
 def replay(rp):
     print(json.dumps({k: v for k, v in rp.items() if k not in ("traceback", "coq_log_tail")}, indent=1, default=str)[:3000])
     kind = rp.get("kind")
+    if kind == "history" and rp.get("check") == "last_object":
+        _, _, names = extract_angular_safe()
+        impl = Impl(names)
+        spec_n = {(m, k): (1 if (m in ("lebedev", "spherical") and k == "KW") else 0) for m in METHODS + ["coulomb"] for k in KINDS}
+        hit = direct_first_failure(impl, spec_n, rp["history"])
+        print("python:", rp.get("python"))
+        if hit is not None:
+            print(f"call {hit[0]} returns an object whose {KNAME[hit[1]]} differ from the shipped data: rows {np.asarray(hit[2]).shape[0]}, [sum, first] = {fingerprint(hit[2])}")
+            return 1
+        print("every call returned the shipped data")
+        return 0
     if kind == "history" and "observe" in rp:
         _, _, names = extract_angular_safe()
         impl = Impl(names)
